@@ -34,7 +34,7 @@ def run(ctx):
             hs.append(realfuzz.History(j["cls"], j.get("base", 0), j["ops"]))
     ncorp = len(hs)
     classes = ["Cosmology", "Transfer", "MassFunction", "TransferWDM", "MassFunctionWDM"]
-    per = 8 if quick else 120
+    per = 14 if quick else 120
     for cn in classes:
         for _ in range(per if cn != "Cosmology" else max(2, per // 4)):
             hs.append(realfuzz.gen_history(r, cn, r.randint(6, 14 if quick else 25)))
